@@ -41,7 +41,7 @@ func (c *Conn) OpenWAL() error {
 	if err := d.step("lock DMS shared"); err != nil {
 		return err
 	}
-	if err := c.shm.Lock(c.Owner, WalDMS, WalDMS, false); err != nil {
+	if err := c.D.lock(c.shm, c.Owner, WalDMS, WalDMS, false); err != nil {
 		return fmt.Errorf("dms lock: %w", err)
 	}
 	return nil
@@ -77,7 +77,7 @@ func (c *Conn) walReadLock() error {
 	if err := d.step(fmt.Sprintf("lock READ%d shared", mark)); err != nil {
 		return err
 	}
-	if err := c.shm.Lock(c.Owner, uint64(WalRead0+mark), uint64(WalRead0+mark), false); err != nil {
+	if err := c.D.lock(c.shm, c.Owner, uint64(WalRead0+mark), uint64(WalRead0+mark), false); err != nil {
 		return err
 	}
 	c.readMark = mark
@@ -114,7 +114,7 @@ func (c *Conn) RunWALTx(spec WALSpec) (res TxResult) {
 	if err := d.step("lock WRITE excl"); err != nil {
 		return fail("write-lock", err)
 	}
-	if err := c.shm.Lock(c.Owner, WalWrite, WalWrite, true); err != nil {
+	if err := c.D.lock(c.shm, c.Owner, WalWrite, WalWrite, true); err != nil {
 		_ = c.walReadUnlock()
 		return fail("write-lock", err)
 	}
@@ -284,7 +284,7 @@ func (c *Conn) RunCheckpoint(spec CheckpointSpec) (res TxResult) {
 		if err := d.step("lock " + label); err != nil {
 			return err
 		}
-		return c.shm.Lock(c.Owner, b, b, excl)
+		return c.D.lock(c.shm, c.Owner, b, b, excl)
 	}
 	ul := func(b uint64, label string) error {
 		if err := d.step("unlock " + label); err != nil {
